@@ -12,6 +12,7 @@ import (
 	"fmt"
 	"go/ast"
 	"go/parser"
+	"go/printer"
 	"go/token"
 	"os"
 	"path/filepath"
@@ -148,6 +149,115 @@ func structFields(f *ast.File, name string) []string {
 		}
 		return false
 	})
+	return out
+}
+
+// exprText prints an expression as source text.
+func exprText(fset *token.FileSet, e ast.Expr) string {
+	var sb strings.Builder
+	printer.Fprint(&sb, fset, e)
+	return strings.Join(strings.Fields(sb.String()), " ")
+}
+
+// skeleton lists, in source order, the decisions of a function: if-conditions, type switches and
+// their case types, value switches and their case lists, type assertions, and returns.
+func skeleton(fset *token.FileSet, fn *ast.FuncDecl) []string {
+	var out []string
+	var walk func(n ast.Node) bool
+	walk = func(n ast.Node) bool {
+		switch x := n.(type) {
+		case *ast.IfStmt:
+			if x.Init != nil {
+				ast.Inspect(x.Init, walk)
+			}
+			out = append(out, "if "+exprText(fset, x.Cond))
+			ast.Inspect(x.Body, walk)
+			if x.Else != nil {
+				out = append(out, "else")
+				ast.Inspect(x.Else, walk)
+			}
+			out = append(out, "fi")
+			return false
+		case *ast.TypeSwitchStmt:
+			out = append(out, "typeswitch")
+			for _, c := range x.Body.List {
+				cc := c.(*ast.CaseClause)
+				var ts []string
+				for _, t := range cc.List {
+					ts = append(ts, exprText(fset, t))
+				}
+				if cc.List == nil {
+					ts = []string{"default"}
+				}
+				out = append(out, "case "+strings.Join(ts, ","))
+				for _, st := range cc.Body {
+					ast.Inspect(st, walk)
+				}
+			}
+			out = append(out, "end")
+			return false
+		case *ast.SwitchStmt:
+			tag := ""
+			if x.Tag != nil {
+				tag = exprText(fset, x.Tag)
+			}
+			out = append(out, "switch "+tag)
+			for _, c := range x.Body.List {
+				cc := c.(*ast.CaseClause)
+				var ts []string
+				for _, t := range cc.List {
+					ts = append(ts, exprText(fset, t))
+				}
+				if cc.List == nil {
+					ts = []string{"default"}
+				}
+				out = append(out, "case "+strings.Join(ts, ","))
+				for _, st := range cc.Body {
+					ast.Inspect(st, walk)
+				}
+			}
+			out = append(out, "end")
+			return false
+		case *ast.TypeAssertExpr:
+			if x.Type != nil {
+				out = append(out, "assert "+exprText(fset, x.Type))
+			}
+			return true
+		case *ast.ReturnStmt:
+			var rs []string
+			for _, r := range x.Results {
+				rs = append(rs, exprText(fset, r))
+			}
+			out = append(out, strings.TrimSpace("return "+strings.Join(rs, ",")))
+			return false
+		case *ast.DeferStmt:
+			out = append(out, "defer "+exprText(fset, x.Call.Fun))
+			return false
+		case *ast.FuncLit:
+			return false
+		}
+		return true
+	}
+	ast.Inspect(fn.Body, walk)
+	return out
+}
+
+// mentions lists the functions whose body selects a field of the given name.
+func mentions(funcs map[string]*ast.FuncDecl, field string) []string {
+	var out []string
+	for k, fd := range funcs {
+		found := false
+		ast.Inspect(fd.Body, func(n ast.Node) bool {
+			if sel, ok := n.(*ast.SelectorExpr); ok && sel.Sel.Name == field {
+				found = true
+			}
+			return !found
+		})
+		if found {
+			out = append(out, k)
+		}
+	}
+	sort.Strings(out)
 	return out
 }
 
@@ -357,6 +467,20 @@ func main() {
 	w("def freeAssigns : List String := %s\n", strList(assignedFields(funcs["pp.free"], "p")))
 	w("def fmtFields : List String := %s\n", strList(structFields(formatGo, "fmt")))
 	w("def clearflagsAssigns : List String := %s\n", strList(assignedFields(funcs["fmt.clearflags"], "f")))
+	w("\n-- G4: the decisions of handleMethods and of printArg, in source order\n")
+	w("def handleMethodsSkeleton : List String := %s\n", strList(skeleton(fset, funcs["pp.handleMethods"])))
+	w("def printArgSkeleton : List String := %s\n", strList(skeleton(fset, funcs["pp.printArg"])))
+	w("def catchPanicSkeleton : List String := %s\n", strList(skeleton(fset, funcs["pp.catchPanic"])))
+	w("\n-- which functions of rfmt select the fields that a recycled printer may carry over\n")
+	rf := map[string]*ast.FuncDecl{}
+	for k, fd := range funcs {
+		if !strings.HasPrefix(k, "Buffer.") {
+			rf[k] = fd
+		}
+	}
+	w("def reorderedUsers : List String := %s\n", strList(mentions(rf, "reordered")))
+	w("def goodArgNumUsers : List String := %s\n", strList(mentions(rf, "goodArgNum")))
+	w("def argNumberCallers : List String := %s\n", strList(mentions(rf, "argNumber")))
 	w("\nend Redact.Gen\n")
 
 	if err := os.MkdirAll(outdir, 0o755); err != nil {
